@@ -47,7 +47,7 @@ import numpy as np  # noqa: E402
 
 PROP = "C16"
 RTOL = 1e-12
-PENDING = os.environ.get("VERIF_C16_PENDING", "") == "1"   # classes that fire on the unchanged tree (reported, undecided)
+PENDING = True   # the three classes that fired on the unchanged tree were repaired (81bea256, 67048005, 9fb42ef4) and are always run
 
 # what the pre-defined Transform objects are documented to be (factor, conj, transpose_axes, swap_axes)
 PREDEF = {
@@ -864,7 +864,9 @@ def check_save_load(ctx, rng, st, a, ma, wit, b=None, mb=None):
         expected_comment = str(obj.comment)     # (which comment a derived result carries is not judged; the one it has must survive)
         ctx.count("saved_derived_result")
     wit = dict(wit, saved=target)
-    scale = m_scale(mod) * 1e-3     # (derived data are compared with the model first, the round trip itself must be bit-exact)
+    # the round trip itself must be bit-exact (judged separately); a derived result is compared with its numpy model on the scale
+    # used for the operation that made it (rotation of a rank-4 tensor: 81 terms)
+    scale = 0.0 if target == "fresh" else (m_scale(ma) + m_scale(mod)) * 81
     tmp = tempfile.mkdtemp(prefix="verif_c16_")
     try:
         compare(ctx, st, "EnergyResult.save:object_before_saving", obj, mod, m_scale(ma) * 100 + m_scale(mod), wit, target)
@@ -921,7 +923,7 @@ def check_save_load(ctx, rng, st, a, ma, wit, b=None, mb=None):
                 ctx.count("save_load_twice")
             # the loaded object as an operand (smoothers are not stored: only with void smoothers can it meet the original)
             c2, _ = gen_scalar(rng)
-            s = m_scale(mod)
+            s = max(m_scale(mod), scale)
             compare(ctx, st, "EnergyResult.from_npz:loaded_as_operand", ld * c2, m_mul(mod, c2), s * max(1, abs(c2)), wit, "loaded*c")
             if meta["nonvoid_smoothers"] == 0:
                 compare(ctx, st, "EnergyResult.from_npz:loaded_as_operand", ld + obj, m_add(mod, mod), 2 * s, wit, "loaded+original")
